@@ -55,6 +55,8 @@ def gen_op(rng, misc_ok=True, heavy=True):
         return "mreg %s %d" % (rnd_name(rng), rng.choice([1, 2, 5, 6]))
     if r < 0.68:
         return "mset %d %d - %d" % (rng.choice([8, 8, 9, 0, 1]), rng.randint(0, 2), rng.randint(1, 1000))
+    if r < 0.72:
+        return "mseti %d %d %d %d %d" % (rng.choice([2, 5, 8, 9, 10]), rng.randint(0, 2), rng.choice([TPU, TCORE, TPACK, TPACK]), rng.randint(0, 2), rng.randint(1, 1000))
     if r < 0.76:
         return "mseto %d %d %d %d %d" % (rng.choice([2, 5, 8, 9, 10]), rng.randint(0, 2), rng.choice([TPU, TCORE, TPACK, 0]), rng.randint(0, 2), rng.randint(1, 1000))
     if r < 0.84:
@@ -257,6 +259,9 @@ def boundary_cases():
             ("b:dist-hetero", [two_numa], ["pre distadd 1004 2 5 0 1", "pre distadd 1014 2 10 0 2", "pre distadd 1003 4 6 0 3", "dup", "mut B robj 1001 0 0"] + d),
             ("b:memattr-values", [two_numa], ["pre mreg foo 1", "pre mset 8 0 - 10", "pre mset 8 1 - 20", "pre mseto 2 0 1001 0 300", "pre mseto 2 1 1001 1 400", "dup",
                                               "mut A mset 8 0 - 11", "mut B mseto 2 0 1001 1 17"] + d),
+            ("b:memattr-object-initiators", [two_numa], ["pre mseti 2 0 1001 0 300", "pre mseti 2 0 1001 1 100", "pre mseti 2 1 1003 2 50", "pre mseto 2 1 1001 1 400",
+                                                         "pre mreg hwvlat 6", "pre mseti 8 0 1004 1 7", "pre mseto 8 0 1004 2 9", "dup", "mut A mseti 2 1 1001 0 5"] + d),
+            ("b:memattr-object-initiators-stale", [two_numa], ["pre mseti 5 0 1001 0 30", "pre mseti 5 1 1001 1 10", "pre robj 1003 0 0", "dup"] + d),
             ("b:memattr-all-targets-removed", [two_numa], ["pre mreg foo 1", "pre mset 8 1 - 20", "pre robj 1014 0 24", "pre refresh", "dup"] + d),
             ("b:memattr-all-initiators-removed", [two_numa], ["pre mseto 2 0 1001 1 300", "pre mseto 2 1 1001 1 400", "pre robj 1001 0 0", "pre refresh", "dup"] + d),
             ("b:cpukinds", ["src synthetic core:4 pu:2"], ["pre kobj 1003 0 1 k a", "pre kobj 1003 1 2 k b", "pre kobj 1003 2 2 k c", "dup", "mut A kobj 1003 3 5 k d", "mut B robj 1003 0 0"] + d),
